@@ -43,16 +43,50 @@ def minify(src, opts):
         return 'EXC:' + e.__class__.__name__
 
 
+TYPED_LITERALS = [('None', 'Optional[str]'), ('True', 'bool'), ('False', 'bool'), ("'utf-8'", 'str'), ("'application/json'", 'str'),
+                  ('1000000', 'int'), ("b'\\x00\\x00'", 'bytes'), ('0.5', 'float')]
+
+
+def typed_modules():
+    """ordinary annotated code: variables declared with an annotation and a bare literal initial value, the literal used a few more
+    times plainly, in a function, at module level and in a class (where the decisions of hoist_literals, remove_annotations and
+    rename_locals meet: the hoist only pays if the annotated occurrences are replaced too)"""
+    out = []
+    for lit, ann in TYPED_LITERALS:
+        for n_ann, n_plain in ((1, 1), (2, 0), (2, 1), (3, 0), (1, 3), (4, 2)):
+            decl = ''.join('    item_%d: %s = %s\n' % (i, ann, lit) for i in range(n_ann))
+            uses = ''.join('    if value == %s:\n        seen.append(%s)\n' % (lit, lit) if i % 2 else '    seen.append(%s)\n' % lit for i in range(n_plain))
+            names = ', '.join('item_%d' % i for i in range(n_ann))
+            fn = 'from typing import Optional\n\n\ndef build(value):\n    seen = []\n' + decl + uses + '    return [seen, value, ' + names + ']\n\n\nprint(build(3))\n'
+            out.append(('typed-fn/%s/%d+%d' % (lit, n_ann, n_plain), fn))
+            mod = 'from typing import Optional\nseen = []\nvalue = 3\n' + decl.replace('    item', 'item') + uses.replace('\n    ', '\n').replace('    if', 'if', 1).replace('    seen', 'seen', 1) + 'print(seen, ' + names + ')\n'
+            try:
+                compile(mod, '<typed>', 'exec', dont_inherit=True)
+                out.append(('typed-module/%s/%d+%d' % (lit, n_ann, n_plain), mod))
+            except SyntaxError:
+                pass
+            cls = 'from typing import Optional\n\n\nclass Settings:\n' + decl + '\n    def check(self, value):\n        seen = []\n' + uses.replace('\n    ', '\n        ').replace('    ', '        ', 1) + '        return seen\n\n\nprint(Settings().check(3), Settings.item_0)\n'
+            try:
+                compile(cls, '<typed>', 'exec', dont_inherit=True)
+                out.append(('typed-class/%s/%d+%d' % (lit, n_ann, n_plain), cls))
+            except SyntaxError:
+                pass
+    return out
+
+
 def run_files(ctx, files, found_by):
     for f in files:
         if ctx.time_left() < 25:
-            ctx.notes.append('stopped by budget at %s' % os.path.basename(f))
+            ctx.notes.append('stopped by budget at %s' % os.path.basename(str(f)))
             break
-        try:
-            with open(f, encoding='utf-8') as fh:
-                src = fh.read()
-        except (OSError, UnicodeDecodeError):
-            continue
+        if isinstance(f, tuple):
+            f, src = f
+        else:
+            try:
+                with open(f, encoding='utf-8') as fh:
+                    src = fh.read()
+            except (OSError, UnicodeDecodeError):
+                continue
         cache = {}
 
         def m(opts):
@@ -75,11 +109,12 @@ def run_files(ctx, files, found_by):
                 if a != b:
                     ctx.mark_nontrivial('%s|%s|%s' % (os.path.basename(f), o, base_name))
                 if len(b) > len(a):
-                    ctx.add_violation({'input': {'file': os.path.relpath(f, common.VERIF) if f.startswith(common.VERIF) else f, 'option': o, 'base': base_name},
+                    ctx.add_violation({'input': {'file': os.path.relpath(f, common.VERIF) if f.startswith(common.VERIF) else f, 'option': o, 'base': base_name,
+                                                 'source': src if not os.path.exists(f) else None},
                                        'what': 'enabling %s on %s (%s base) grows the output from %d to %d characters' % (
                                            o, os.path.basename(f), base_name, len(a), len(b)),
                                        'found_by': found_by, 'oracle': 'length', 'shapes': ['%s:%s:%s' % (os.path.basename(f), o, base_name)]})
-    ctx.sample({'stage': found_by, 'files': [os.path.basename(f) for f in files[:8]]})
+    ctx.sample({'stage': found_by, 'files': [os.path.basename(f if isinstance(f, str) else f[0]) for f in files[:8]]})
 
 
 def decision_ties(ctx):
@@ -110,17 +145,22 @@ def run(ctx):
     files = corpus(ctx)
     if ctx.tier == 'thorough':
         ctx.exhaustive['corpus_files_x_options_x_bases'] = len(files) * len(SIZE_OPTIONS) * 2
+    typed = typed_modules()
+    ctx.exhaustive['typed_modules'] = len(typed)
+    run_files(ctx, typed, 'typed-modules')
     run_files(ctx, files, 'corpus')
 
 
 def search(ctx):
-    run_files(ctx, corpus(ctx), 'search')
+    run_files(ctx, typed_modules() + corpus(ctx), 'search')
 
 
 def replay(ctx, data):
     inp = data.get('input') or {}
     if 'file' in inp:
         f = inp['file'] if os.path.isabs(inp['file']) else os.path.join(common.VERIF, inp['file'])
+        if inp.get('source') is not None:
+            f = (inp['file'], inp['source'])
         n0 = len(ctx.violations)
         global SIZE_OPTIONS
         keep = SIZE_OPTIONS
